@@ -327,6 +327,19 @@ pub const SHAPES: &[Shape] = &[
     sh("open-selections", 16, 18),
     sh("open-parens", 16, 18),
     sh("open-list-types", 16, 18),
+    // documents: deep nesting AFTER a token on which a hand-written pre-scan and the grammar could disagree
+    // (comment ended by a lone CR / CRLF, '#' and quotes inside strings and block strings, escapes before the
+    // closing quote): a bracket pre-scan that loses its place would let the recursive parser overflow the stack
+    sh("after-cr-comment-lists", 16, 18),
+    sh("after-crlf-comment-lists", 16, 18),
+    sh("after-quote-comment-cr-lists", 16, 18),
+    sh("after-hash-string-lists", 16, 18),
+    sh("after-escaped-quote-string-lists", 16, 18),
+    sh("after-escaped-backslash-string-lists", 16, 18),
+    sh("after-block-string-quote-hash-lists", 16, 18),
+    sh("after-block-string-escaped-triple-lists", 16, 18),
+    sh("after-empty-string-lists", 16, 18),
+    sh("after-cr-comment-selections", 16, 18),
     // documents: long / wide
     sh("long-string", 16, 18),
     sh("escape-string", 16, 18),
@@ -402,6 +415,16 @@ pub fn shape_input(shape: &str, n: usize) -> Input {
         "open-selections" => doc(s, rep("{a", n)),
         "open-parens" => doc(s, format!("query{}", rep("(", n))),
         "open-list-types" => doc(s, format!("query($v:{}", rep("[", n))),
+        "after-cr-comment-lists" => doc(s, format!("{{any(v:#c\r{})}}", nest("[", "1", "]", n))),
+        "after-crlf-comment-lists" => doc(s, format!("{{any(v:#c\r\n{})}}", nest("[", "1", "]", n))),
+        "after-quote-comment-cr-lists" => doc(s, format!("{{any(v:#\"\r{})}}", nest("[", "1", "]", n))),
+        "after-hash-string-lists" => doc(s, format!("{{s:string(v:\"#\")any(v:{})}}", nest("[", "1", "]", n))),
+        "after-escaped-quote-string-lists" => doc(s, format!("{{s:string(v:\"\\\"#\")any(v:{})}}", nest("[", "1", "]", n))),
+        "after-escaped-backslash-string-lists" => doc(s, format!("{{s:string(v:\"\\\\\")any(v:{})}}", nest("[", "1", "]", n))),
+        "after-block-string-quote-hash-lists" => doc(s, format!("{{s:string(v:\"\"\"a\"#\"\"\")any(v:{})}}", nest("[", "1", "]", n))),
+        "after-block-string-escaped-triple-lists" => doc(s, format!("{{s:string(v:\"\"\"\\\"\"\"#\"\"\")any(v:{})}}", nest("[", "1", "]", n))),
+        "after-empty-string-lists" => doc(s, format!("{{s:string(v:\"\")any(v:{})}}", nest("[", "1", "]", n))),
+        "after-cr-comment-selections" => doc(s, format!("{{#c\r{}}}", nest("obj{", "a", "}", n))),
         "long-string" => doc(s, format!("{{string(v:\"{}\")}}", rep("a", n))),
         "escape-string" => doc(s, format!("{{string(v:\"{}\")}}", rep("\\u0041", n))),
         "block-string" => doc(s, format!("{{string(v:\"\"\"{}\"\"\")}}", rep("a", n))),
